@@ -265,6 +265,14 @@ func leaves3(csss [][][]geom.Coord) []*geom.Coord {
 }
 
 func genC01(r *Rng, e *Emitter, n int) {
+	// "Push": a part of every layout pushed onto a receiver of every layout, no layout at all included
+	for _, kind := range c02Kinds {
+		for _, lr := range c02PairLayouts {
+			for _, lp := range c02PairLayouts {
+				c02Mini(r, e, kind, lr, lp)
+			}
+		}
+	}
 	// "any decoder": binary encodings no encoder writes (members of another dimensionality than the
 	// header says, truncations of them) decode to an error or to a well-formed geometry
 	saved := wkbcommon.MaxGeometryElements
